@@ -2,7 +2,7 @@
 import json
 import lib
 
-SCENARIOS = ["override", "restore", "restore-dirty", "overwrite-only", "backup-only"]
+SCENARIOS = ["override", "restore", "restore-dirty", "overwrite-only", "backup-only", "rebackup"]
 
 
 def expected_ok(case, r):
@@ -16,6 +16,12 @@ def expected_ok(case, r):
     if r.get("integrity") != ["ok"]:
         return False, "integrity"
     rows = [list(x) for x in r["rows"]]
+    if case["scenario"] == "rebackup" and case.get("kill"):
+        # the second, completed backup was taken of the "mid" content: that is what the next context must see
+        mid = sorted([["Page %d" % i, ("mid %d" % i)[:12]] for i in range(n)])
+        if r.get("pre") and r["pre"][-1] != 0:
+            return False, "second-flow-failed"
+        return rows == mid, ("first-backup-content-restored" if rows == sorted(orig) else "other-content")
     if case["scenario"] == "overwrite-only":
         # no backup was ever taken: the last committed content, old or new, never a mixture
         return (rows == sorted(orig) or rows == new_all), "mixed-or-lost-content"
@@ -34,7 +40,8 @@ def run(run):
     run.rule = ("every executed source line of backup_db, create_db, close_db_conn, overwrite_pages, overwrite_single_page, "
                 "analyze_and_overwrite_pages, add_page and init_wikidata_cache as a kill point (os._exit without cleanup) in five "
                 "flows: override (backup, overwrite, close), restore after a clean override, restore after an override that left "
-                "a write-ahead log behind, overwrite without backup, backup only; two database sizes (the larger one makes the "
+                "a write-ahead log behind, overwrite without backup, backup only, and a killed backup followed by new content and a "
+                "complete backup+overwrite+close (the restore must bring back the second backup's content); two database sizes (the larger one makes the "
                 "backup several pages long); a sample of kill points is followed by a second kill during the next reopen; "
                 "non-trivial = kill point inside the flow; distinct by (scenario, size, kill point)")
     run.trusted = [
